@@ -1,13 +1,18 @@
 #!/bin/bash
-# usage: try_seed.sh <patch.diff> <property>...   applies the patch to /repo, runs the quick checks, reverts.
+# usage: try_seed.sh <patch.diff> <property>...   applies the patch in a scratch worktree of /repo HEAD (never in /repo),
+# runs the quick checks against it, removes the worktree.
 export GOFLAGS=-mod=mod GOPROXY=off GOSUMDB=off GOTOOLCHAIN=local GOWORK=off
 patch=$1; shift
-cd /repo || exit 2
-if [ -n "$(git status --porcelain)" ]; then echo "/repo not clean"; exit 2; fi
-if ! git apply --3way "$patch" 2>/tmp/apply.err; then echo "patch does not apply: $(cat /tmp/apply.err | head -3)"; git checkout -- . ; exit 2; fi
-git reset -q
+id=$(basename $patch .patch.diff)
+WT=/tmp/seedtry/$id.$$
+mkdir -p /tmp/seedtry /tmp/seedrun/evidence
+ln -sfn /verif/rules /tmp/seedrun/rules; ln -sf /verif/known_findings.json /tmp/seedrun/known_findings.json; ln -sf /verif/properties.jsonl /tmp/seedrun/properties.jsonl
+git -C /repo worktree add --detach $WT HEAD >/dev/null 2>&1 || { echo "worktree failed"; exit 2; }
+cd $WT
+if ! git apply --3way "$patch" 2>/tmp/apply.$$.err; then echo "patch does not apply: $(head -3 /tmp/apply.$$.err)"; cd /; git -C /repo worktree remove --force $WT; exit 2; fi
 for p in "$@"; do
   echo "--- $p on $(basename $patch)"
-  GNARKLINT_VERIF=/tmp/seedrun /verif/bin/gnarklint -property $p 2>&1 | grep -v '^VIOLATION' | cut -c1-420 | head -${HEADN:-12}
+  mkdir -p /tmp/seedrun/$id
+  GNARKLINT_VERIF=/tmp/seedrun GNARKLINT_REPO=$WT /verif/bin/gnarklint -property $p 2>&1 | grep -v '^VIOLATION' | cut -c1-420 | head -${HEADN:-12}
 done
-git checkout -- . ; git clean -fdq
+cd /; git -C /repo worktree remove --force $WT
